@@ -22,7 +22,8 @@ type IOFault struct {
 	PinK    int    `json:"pin_k,omitempty"`
 	PinForm bool   `json:"pin_form,omitempty"` // write: short write; read: error together with data
 	// ErrKind selects the error value the failing source/destination returns
-	// (0 a private error, 1 io.ErrUnexpectedEOF, 2 io.ErrClosedPipe, 3 io.ErrNoProgress, 4 syscall.ECONNRESET).
+	// (0 a private error, 1 io.ErrUnexpectedEOF, 2 io.ErrClosedPipe, 3 io.ErrNoProgress, 4 syscall.ECONNRESET,
+	// 5 os.ErrDeadlineExceeded, 6 syscall.EAGAIN, 7 syscall.EINTR - the last three call themselves temporary).
 	ErrKind int `json:"err_kind,omitempty"`
 }
 
@@ -36,6 +37,12 @@ func (s *IOFault) errValue() error {
 		return io.ErrNoProgress
 	case 4:
 		return syscall.ECONNRESET
+	case 5:
+		return os.ErrDeadlineExceeded // Timeout() and Temporary() report true
+	case 6:
+		return syscall.EAGAIN // Temporary() reports true
+	case 7:
+		return syscall.EINTR
 	}
 	return simio.ErrInjected
 }
@@ -49,8 +56,13 @@ func (ioFaultWorld) Gen(seed uint64, tier string) core.Scenario {
 		src = &FileSrc{Hist: genAPIHist(r, tier, false)}
 	} else {
 		src = &FileSrc{Foreign: genForeign(r, tier)}
+		if r.Chance(1, 3) {
+			// as streaming writers do: the length word of every track chunk is zero (the
+			// library does not need it to read the file)
+			src.ZeroLengths = true
+		}
 	}
-	return &IOFault{Src: src, ErrKind: r.Weighted(50, 20, 10, 10, 10)}
+	return &IOFault{Src: src, ErrKind: r.Weighted(40, 15, 8, 8, 8, 8, 8, 5)}
 }
 func (ioFaultWorld) Decode(raw json.RawMessage) (core.Scenario, error) {
 	var s IOFault
